@@ -7,6 +7,7 @@ import (
 	"github.com/shpandrak/shpanstream/utils/timeseries"
 	"github.com/shpandrak/shpanstream/utils/timeseries/tsquery"
 	"github.com/shpandrak/shpanstream/utils/timeseries/tsquery/datasource"
+	"math"
 	"time"
 )
 
@@ -153,6 +154,10 @@ func parseCustomAlignmentPeriod(period ApiCustomAlignmentPeriod) (timeseries.Ali
 	}
 	if period.DurationInMillis <= 0 {
 		return nil, badInputErrorf(period, "duration must be positive")
+	}
+	if period.DurationInMillis > math.MaxInt64/int64(time.Millisecond) {
+		// The conversion to time.Duration (nanoseconds) below would overflow
+		return nil, badInputErrorf(period, "duration is too large")
 	}
 	return timeseries.NewFixedAlignmentPeriod(time.Duration(period.DurationInMillis)*time.Millisecond, loc), nil
 }
